@@ -36,6 +36,15 @@ func init() {
 		vrt + "Quiesce":  func(fr *frame, a []value) value { fr.i.quiesceAll(); return nil },
 		vrt + "Now":      func(fr *frame, a []value) value { return mkTime(fr.i.world.Now()) },
 		vrt + "TimeAgo":  vrtTimeAgo,
+		vrt + "Time": func(fr *frame, a []value) value {
+			i := fr.i
+			ts := i.ts()
+			t := i.fresh("int64", a[1].(string), types.Int64).(symv)
+			i.path.addPC(ts.BVCmp("bvsle", ts.BV(1, 64), t.t))
+			i.path.addPC(ts.BVCmp("bvslt", t.t, ts.BV(1<<62, 64)))
+			return mkTime(t)
+		},
+		vrt + "Advance": func(fr *frame, a []value) value { fr.i.world.Advance(a[1]); return nil },
 		vrt + "Duration": vrtDuration,
 		vrt + "Live":     func(fr *frame, a []value) value { return len(fr.i.liveGoroutines()) },
 		vrp + "And":      func(fr *frame, a []value) value { return fr.i.andValues(a[0], a[1]) },
